@@ -6221,6 +6221,23 @@ func (c *GoCompiler) compileBigFloatLiteralNode(node *ast.BigFloatLiteralNode) *
 	)
 }
 
+// Go source of a float of the given elk type (Float, Float64, Float32), `g` is the value formatted with %g.
+// Infinities, NaN and the negative zero cannot be written as Go constants.
+func goFloatSource(typeName string, f float64, g string) string {
+	switch {
+	case math.IsInf(f, 1):
+		return fmt.Sprintf("value.%sInf()", typeName)
+	case math.IsInf(f, -1):
+		return fmt.Sprintf("value.%sNegInf()", typeName)
+	case math.IsNaN(f):
+		return fmt.Sprintf("value.%sNaN()", typeName)
+	case f == 0 && math.Signbit(f):
+		// a Go constant `-0.0` is the positive zero
+		return fmt.Sprintf("(1 / value.%sNegInf())", typeName)
+	}
+	return fmt.Sprintf("value.%s(%s)", typeName, g)
+}
+
 func (c *GoCompiler) compileFloatLiteralNode(node *ast.FloatLiteralNode) *goValue {
 	f, err := strconv.ParseFloat(node.Value, value.SmallIntBits)
 	if err != nil {
@@ -6228,7 +6245,7 @@ func (c *GoCompiler) compileFloatLiteralNode(node *ast.FloatLiteralNode) *goValu
 		return errGoValue
 	}
 	return newGoValue(
-		fmt.Sprintf("value.Float(%g)", f),
+		goFloatSource("Float", f, fmt.Sprintf("%g", f)),
 		c.typeOf(node),
 		value.FetchGoType("value.Float"),
 	)
@@ -6241,7 +6258,7 @@ func (c *GoCompiler) compileFloat64LiteralNode(node *ast.Float64LiteralNode) *go
 		return errGoValue
 	}
 	return newGoValue(
-		fmt.Sprintf("value.Float64(%g)", f),
+		goFloatSource("Float64", f, fmt.Sprintf("%g", f)),
 		c.typeOf(node),
 		value.FetchGoType("value.Float64"),
 	)
@@ -6254,7 +6271,7 @@ func (c *GoCompiler) compileFloat32LiteralNode(node *ast.Float32LiteralNode) *go
 		return errGoValue
 	}
 	return newGoValue(
-		fmt.Sprintf("value.Float32(%g)", f),
+		goFloatSource("Float32", f, fmt.Sprintf("%g", f)),
 		c.typeOf(node),
 		value.FetchGoType("value.Float32"),
 	)
@@ -15622,19 +15639,19 @@ func (c *GoCompiler) valueToGoSource(val value.Value, typ types.Type, allowMutab
 		)
 	case value.FLOAT_FLAG:
 		return newGoValue(
-			fmt.Sprintf("value.Float(%g)", val.AsFloat()),
+			goFloatSource("Float", float64(val.AsFloat()), fmt.Sprintf("%g", val.AsFloat())),
 			c.checker.Std(symbol.Float),
 			value.FetchGoType("value.Float"),
 		)
 	case value.FLOAT64_FLAG:
 		return newGoValue(
-			fmt.Sprintf("value.Float64(%g)", val.AsFloat64()),
+			goFloatSource("Float64", float64(val.AsFloat64()), fmt.Sprintf("%g", val.AsFloat64())),
 			c.checker.Std(symbol.Float64),
 			value.FetchGoType("value.Float64"),
 		)
 	case value.FLOAT32_FLAG:
 		return newGoValue(
-			fmt.Sprintf("value.Float32(%g)", val.AsFloat32()),
+			goFloatSource("Float32", float64(val.AsFloat32()), fmt.Sprintf("%g", val.AsFloat32())),
 			c.checker.Std(symbol.Float32),
 			value.FetchGoType("value.Float32"),
 		)
